@@ -41,6 +41,10 @@ class InfraError(Exception):
 def repo_hash(repo=REPO):
     """Content hash of every file of the working tree that can influence the build."""
     h = hashlib.sha256()
+    # the extractor itself is part of the key: a rebuilt driver invalidates cached facts
+    for f in sorted(glob.glob(os.path.join(VERIF, "driver", "src", "*.rs"))):
+        with open(f, "rb") as fh:
+            h.update(fh.read())
     for root, dirs, files in os.walk(repo):
         dirs[:] = sorted(d for d in dirs if d not in (".git", "target"))
         for f in sorted(files):
